@@ -24,10 +24,20 @@ func (m *MTProto) sendPacket(request tl.Object, expectedTypes ...reflect.Type) (
 		return nil, errors.Wrap(err, "encoding request message")
 	}
 
+	// msg_id is taken, the response channel registered and the message written under one lock: msg_ids
+	// must grow in the order the messages are written, whatever the clock returns
+	m.seqNoMutex.Lock()
+	defer m.seqNoMutex.Unlock()
+
 	var (
 		data  messages.Common
 		msgID = utils.GenerateMessageId()
 	)
+
+	if msgID <= m.lastMsgID {
+		msgID = m.lastMsgID + 4 // nolint:gomnd msg_id of a client message is divisible by 4
+	}
+	m.lastMsgID = msgID
 
 	// adding types for parser if required
 	if len(expectedTypes) > 0 {
@@ -55,12 +65,11 @@ func (m *MTProto) sendPacket(request tl.Object, expectedTypes ...reflect.Type) (
 		}
 	}
 
-	// must write synchroniously, cuz seqno must be upper each request
-	m.seqNoMutex.Lock()
-	defer m.seqNoMutex.Unlock()
-
+	// must write synchroniously, cuz seqno must be upper each request (the lock is taken above)
 	err = m.transport.WriteMsg(data, MessageRequireToAck(request))
 	if err != nil {
+		m.responseChannels.Delete(int(msgID))
+		m.expectedTypes.Delete(int(msgID))
 		return nil, errors.Wrap(err, "sending request")
 	}
 
